@@ -52,6 +52,7 @@ struct _ctx {
     uint8_t quit_code;                      // Context's quit code, returned by modules_ctx_loop()
     bool finalized;                         // Whether the context is finalized, ie: no more modules can be registered
     bool destroying;                        // Whether the context is being deregistered (its modules are being deregistered)
+    bool stopping;                          // Whether the loop is being stopped (its final flush is running callbacks)
     m_log_cb logger;                        // Context's log callback
     m_map_t *modules;                       // Context's modules
     m_mod_t *curr_mod;                      // Current module's being processed. NULL when we are outside of any module.
